@@ -57,6 +57,21 @@ theorem addPreChain_tie_q (cfg : Cfg) (q : Req) (rn qn ln d nt : Bool) :
 theorem addPreChain_tie_e (cfg : Cfg) (q : Req) (e : BErr) :
     handler cfg .addPreChain q (.err e) = handler cfg .addChain q (.err e) := rfl
 
+/-- what `Req.bodyOk` folds: the body was read, is ONE well-formed JSON document (`json.Unmarshal` of the whole body — a decoder
+that stops after the first value would change the regenerated unit) and carries a non-empty chain -/
+theorem bodyOk_means (readFails jsonBad : Bool) (chainLen : Int) :
+    Gen.parseBodyAsJSONChain readFails jsonBad chainLen = .ok ↔ (readFails = false ∧ jsonBad = false ∧ chainLen ≠ 0) := by
+  simp only [Gen.parseBodyAsJSONChain]
+  cases readFails <;> cases jsonBad <;> by_cases h : chainLen = 0 <;> simp [h]
+
+/-- what `Req.chainOk` folds (besides `MerkleTreeLeafFromChain`): the chain validates, the poison test does not fail, and the
+kind of the leaf is the one the endpoint expects -/
+theorem chainOk_means (validateFails precertTestFails isPrecert expecting : Bool) :
+    Gen.verifyAddChain validateFails precertTestFails isPrecert expecting = .ok ↔
+      (validateFails = false ∧ precertTestFails = false ∧ isPrecert = expecting) := by
+  simp only [Gen.verifyAddChain]
+  cases validateFails <;> cases precertTestFails <;> cases isPrecert <;> cases expecting <;> simp
+
 /-- the SCT is recorded as issued strictly after every check on the reply and on the signer has passed; the backend is
 called exactly when the request has been accepted; a success response always carries an SCT -/
 theorem addChain_order (b c l u r : Bool) (m : Nat) (rn qn ln lu tr sf mf wf : Bool)
